@@ -48,7 +48,7 @@ def _gradesel_jobs(tier, seed):
 
 
 def standins(tier, seed):
-    return K.symcoef_jobs('C04', ['add', 'sub', 'neg', 'reverse', 'involute', 'conjugate'], tier, seed) + _gradesel_jobs(tier, seed)
+    return K.symcoef_jobs('C04', ['add', 'sub', 'neg', 'reverse', 'involute', 'conjugate'], tier, seed, extra_configs=K.CUSTOM) + _gradesel_jobs(tier, seed)
 
 
 replay = K.replay_operator
